@@ -35,7 +35,7 @@ ID = "C10"
 LEVEL = "exploration"
 HANG_IS_VIOLATION = True
 TIERS = {
-    "quick": {"runs": 1200, "wall": 75, "run_timeout": 120, "shrink_s": 40, "p_gamma": 0.15},
+    "quick": {"runs": 1500, "wall": 70, "run_timeout": 120, "shrink_s": 40, "p_gamma": 0.15},
     "thorough": {"runs": 60000, "wall": 1100, "run_timeout": 240, "shrink_s": 120, "p_gamma": 0.2},
 }
 RULE = ("case = seeded continuum (2..4 annotators, <= 8 units each; overlap-heavy families nested / staircase / long-spanning plus "
